@@ -21,11 +21,12 @@ type protocolV2 struct{}
 func (protocolV2) Version() uint8 { return 2 }
 
 func (p *protocolV2) UnpackBytes(ctx *protocol.Context, bs []byte) (packet *protocol.Packet, err error) {
-	ctx.BeginUnpack()
-	header := headerFromContext(ctx)
+	// a one-shot decode uses its own pooled header and leaves the context
+	// alone: the context may hold the header of a streaming decode that is
+	// still waiting for data
+	header := defaultHeaderPool.Get()
 
 	defer func() {
-		ctx.SetHeader(nil)
 		defaultHeaderPool.Put(header)
 	}()
 
@@ -69,8 +70,6 @@ func (p *protocolV2) UnpackBytes(ctx *protocol.Context, bs []byte) (packet *prot
 			return
 		}
 	}
-
-	ctx.EndUnpack()
 
 	return
 }
